@@ -213,34 +213,46 @@ def r05_1(cx):
 
 def r05_2(cx):
     s = cx.body('util::prefilter::RareByteOffsets::set')
-    st = s.field_stores()
-    ok = False
-    why = [(tstr(tt), tstr(v, 120)) for bi, si, tt, v, x in st]
-    if len(st) == 1:
-        tt, v = strip_convs(st[0][2]), strip_convs(st[0][3])
-        tgt_ok = tt[0] == 'f' and tt[2] == 'max' and tt[1][0] == 'idx' and tstr(tt[1][1]) == 'self.set' and is_var(peel_all(strip_convs(tt[1][2])), 'byte')
-        if is_call(v, r'core::cmp::max$') and len(v[2]) == 2:
-            a = [x for x in v[2] if x == tt]
-            c = [x for x in v[2] if tstr(x) == 'off.max']
-            ok = tgt_ok and len(a) == 1 and len(c) == 1
-    cx.report('R05.2', s, 'max', ok, 'set[byte].max = max(set[byte].max, off.max)' if ok else 'RareByteOffsets::set stores %s' % why)
+    rows = [r for r in summarize(cx.facts, s) if r.end == 'return']
+    BYTE, OFF = cstr(param_at(s, 2)), cstr(param_at(s, 3))
+    SLOT = 'self.set[%s].max' % BYTE
+    why = None if rows else 'RareByteOffsets::set never returns'
+    try:
+        for old in (0, 3, 9):
+            for new in (0, 3, 9):
+                at = by_cstr({SLOT: old, '%s.max' % OFF: new, 'core::ops::Index::index(self.set, %s).max' % BYTE: old})
+                sel = [r for r in rows if row_consistent(r, at)]
+                if len(sel) != 1:
+                    why = '%d paths for old=%d new=%d' % (len(sel), old, new)
+                    continue
+                sts = [(cstr(p0), v0) for p0, v0 in sel[0].stores()]
+                tgt = [v0 for p0, v0 in sts if p0 in (SLOT, 'core::ops::IndexMut::index_mut(self.set, %s).max' % BYTE)]
+                oth = [p0 for p0, v0 in sts if p0 not in (SLOT, 'core::ops::IndexMut::index_mut(self.set, %s).max' % BYTE)]
+                val = teval(tgt[-1], at) if tgt else old
+                if oth:
+                    why = 'RareByteOffsets::set writes %s' % oth
+                elif val != max(old, new):
+                    why = 'set[byte].max becomes %s for old=%d new=%d (expected the maximum: offsets of earlier patterns must not shrink)' % (val, old, new)
+    except (Unsupported, EvalPanic) as e:
+        why = 'cannot evaluate: %s' % e
+    cx.report('R05.2', s, 'max', why is None, 'set[byte].max = max(set[byte].max, off.max) (tabulated on all orderings)' if why is None else why)
     n = cx.body('util::prefilter::RareByteOffset::new')
-    tb = decision_table(n)
-    ok = tb is not None and len(tb) == 2
-    if ok:
-        for conds, out, path in tb:
-            c = rewrite(strip_convs(conds[0][0]), lambda y: atom('M') if is_var(y, 'max') else None)
-            fits = cmp_true_when(c, {'M': 255})
-            big = cmp_true_when(c, {'M': 256})
-            if fits is None or big is None or fits == big:
+    nrows = [r for r in summarize(cx.facts, n) if r.end == 'return']
+    MX = cstr(param_at(n, 1))
+    ok = bool(nrows)
+    try:
+        for m in (0, 1, 254, 255, 256, 1000):
+            sel = [r for r in nrows if row_consistent(r, by_cstr({MX: m}))]
+            if len(sel) != 1:
                 ok = False
                 continue
-            taken_fits = (conds[0][1] == fits)
-            o = out
-            if taken_fits:
-                ok = ok and is_agg(o, r'Option$', 'Some')
+            rt = sel[0].ret
+            if m <= 255:
+                ok = ok and is_agg(rt, r'Option$', 'Some') and is_agg(rt[3]['0'], r'RareByteOffset$') and teval(rt[3]['0'][3]['max'], by_cstr({MX: m})) == m
             else:
-                ok = ok and is_agg(o, r'Option$', 'None')
+                ok = ok and is_agg(rt, r'Option$', 'None')
+    except (Unsupported, EvalPanic, KeyError, TypeError):
+        ok = False
     cx.report('R05.2', n, 'u8-limit', ok, 'RareByteOffset::new(max) is Some iff max <= 255' if ok else 'RareByteOffset::new does not reject exactly the offsets above 255')
 
 
